@@ -17,7 +17,7 @@ TECHNIQUE = ('runtime monitoring with fault injection: the real parse_folder.mai
 RULE = ('7 pages x 2 lines (ids a, b.v2, c.jpg_x, d.xml, e.logits.1, f, f.b), cropper + stub OCR; scenario = (subset of the five output kinds, sequence of 1-3 crash positions in 0..#writes, then a final resume). '
         'quick: every single crash position for all five outputs, and for each of the other 30 subsets every position inside the first page, inside a middle page and after the last write, + 30 random double/triple crashes + the nothing-to-do runs; thorough: all 31 subsets x every single position, pairs of positions on a (2,3)-grid for three '
         'subsets, 600 random double/triple crashes, real-process kills. non-trivial = at least one crash strictly inside the batch; distinct = hash of (subset, crash sequence)')
-ASSUMPTIONS = ['a kill happens between two output writes (a write itself is atomic); simulated by raising a BaseException subclass instead of the next write, validated against real os._exit kills',
+ASSUMPTIONS = ['a kill happens between two events, an event being an output write or the creation of an output folder (each is atomic); simulated by raising a BaseException subclass instead of the next event, validated against real os._exit kills',
                'outputs are compared modulo Created/LastChange/processingDateTime; logits by unpickled content; JPEGs byte-wise', '"complete page" = all its requested outputs exist when the run starts']
 N = {'quick': 0, 'thorough': 0}      # filled in by scenarios()
 CLASSES = ['single_crash', 'multi_crash', 'no_crash']
@@ -40,6 +40,11 @@ def writes_of(kinds, n_lines=2):
     return per_page * len(IDS)
 
 
+def events_of(kinds):
+    """crash-able events of a first run: one directory creation per requested output folder + the writes"""
+    return writes_of(kinds) + len(kinds) + 1       # + 1: os.makedirs creates the common parent folder through a recursive call
+
+
 def scenarios(tier, seed):
     rng = np.random.default_rng([seed, 17])
     out = []
@@ -49,7 +54,7 @@ def scenarios(tier, seed):
     else:
         chosen = subsets
     for kinds in chosen:
-        nw = writes_of(kinds)
+        nw = events_of(kinds)
         out.append((kinds, ()))
         for p in range(nw + 1):
             out.append((kinds, (p,)))
@@ -58,20 +63,21 @@ def scenarios(tier, seed):
         for kinds in subsets:
             if kinds == ALL:
                 continue
-            nw = writes_of(kinds)
-            pp = nw // len(IDS)
+            nd = len(kinds) + 1
+            nw = events_of(kinds)
+            pp = writes_of(kinds) // len(IDS)
             out.append((kinds, ()))
-            for p in sorted(set(list(range(0, pp + 1)) + list(range(2 * pp, 3 * pp + 1)) + [nw])):
+            for p in sorted(set(list(range(0, nd + pp + 1)) + list(range(nd + 2 * pp, nd + 3 * pp + 1)) + [nw])):
                 out.append((kinds, (p,)))
     if tier == 'thorough':
         for kinds in (ALL, ['xml', 'logits', 'alto'], ['render', 'line']):
-            nw = writes_of(kinds)
+            nw = events_of(kinds)
             for p, q in itertools.product(range(0, nw + 1, 2), range(0, nw + 1, 3)):
                 out.append((kinds, (p, q)))
     nrand = 30 if tier == 'quick' else 600
     for _ in range(nrand):
         kinds = subsets[int(rng.integers(0, len(subsets)))]
-        nw = writes_of(kinds)
+        nw = events_of(kinds)
         out.append((kinds, tuple(int(x) for x in rng.integers(0, nw + 1, size=int(rng.integers(2, 4))))))
     return out
 
@@ -109,6 +115,24 @@ def install_recorders(ctx, PageLayout, cv2, real_exit=False):
             events.append((kind, a[pathidx]))
             return r
         setattr(obj, name, w)
+    # directory creations are crash-able events too (a kill may fall between a write and the creation of the next output folder)
+    orig_makedirs, orig_mkdir = os.makedirs, os.mkdir
+    out_marker = os.sep + 'vf_C17_'
+
+    def mk(orig):
+        def w(path, *a, **k):
+            if out_marker in str(path) and not str(path).startswith(getattr(ctx, 'root', '\0')):
+                if state['crash_at'] is not None and state['n'] == state['crash_at']:
+                    if state['real']:
+                        os._exit(137)
+                    raise Kill()
+                r = orig(path, *a, **k)
+                state['n'] += 1
+                events.append(('mkdir', path))
+                return r
+            return orig(path, *a, **k)
+        return w
+    os.makedirs = mk(orig_makedirs)
     wrap(PageLayout, 'to_pagexml', 'xml', 1)
     wrap(PageLayout, 'save_logits', 'logits', 1)
     wrap(PageLayout, 'to_altoxml', 'alto', 1)
@@ -146,8 +170,8 @@ def reference(ctx, kinds, mon):
         res, nw, pr = run(ctx, out, kinds)
         ref = pipeline.snapshot(out)
         ctx.refs[key] = (out, ref, nw, res, pr)
-        if res != 'ok' or nw != writes_of(kinds) or sorted(pr) != sorted(IDS) or any(not files_of(p, ref) for p in IDS):
-            mon.violation('harness:exception', {'note': 'uninterrupted reference run did not behave as planned', 'status': res, 'writes': nw, 'expected_writes': writes_of(kinds), 'processed': pr})
+        if res != 'ok' or nw != events_of(kinds) or sorted(pr) != sorted(IDS) or any(not files_of(p, ref) for p in IDS):
+            mon.violation('harness:exception', {'note': 'uninterrupted reference run did not behave as planned', 'status': res, 'events': nw, 'expected_events': events_of(kinds), 'processed': pr})
     return ctx.refs[key]
 
 
@@ -166,7 +190,7 @@ def check(case, mon, ctx):
     mon.count('scenarios')
     if len(seq) == 1:
         mon.count('single_crash_positions_enumerated')
-    w = {'outputs': kinds, 'crash_positions': seq, 'writes_in_a_full_run': nw}
+    w = {'outputs': kinds, 'crash_positions': seq, 'events_in_a_full_first_run (folder creations + writes)': nw}
 
     def complete_pages(out):
         before = pipeline.snapshot(out)
@@ -185,6 +209,14 @@ def check(case, mon, ctx):
             mon.violation('complete-pages-not-processed-again', dict(w, reprocessed=sorted(set(pr) & complete), run='second run over a complete tree'), mechanism=known('complete-pages-not-processed-again'))
         if pipeline.snapshot(ref_out) != ref:
             mon.violation('outputs-equal-uninterrupted-run', dict(w, note='a run with nothing to do changed the outputs'))
+        # the same with the filter for pages without input XML switched on
+        if not pr:
+            ctx.state['crash_at'], ctx.state['n'] = None, 0
+            del ctx.events[:]; del ctx.proc[:]
+            res3 = pipeline.run_main(ctx.PF, pipeline.argv_for(ctx.root, ref_out, kinds, extra=['--skipp-missing-xml']), crash_exc=Kill)
+            mon.count('nothing_to_do_runs')
+            if res3 != 'ok':
+                mon.violation('nothing-left-to-do-exits-cleanly', dict(w, status=res3, options='--skipp-missing-xml'))
         # the same with worker processes requested (only when the run above really had nothing to do: the in-process harness cannot
         # ship its recorders to worker processes)
         if pr:
@@ -253,8 +285,8 @@ def extra(mon, ctx):
     if ctx.shard != 0:
         return
     kinds = ALL
-    nw = writes_of(kinds)
-    positions = [0, 3, 7, nw] if ctx.tier == 'quick' else list(range(0, nw + 1, 2))
+    nw = events_of(kinds)
+    positions = [0, 3, 9, nw] if ctx.tier == 'quick' else list(range(0, nw + 1, 2))
     procs = []
     for p in positions:
         out = os.path.join(ctx.tmpdir, 'real%d' % p)
